@@ -49,6 +49,10 @@ def build_term(yp, t, vars_):
 
 def canon_terms(terms):
     """resolved engine terms -> sexp lists with variables numbered by first occurrence"""
+    return _canon_terms(terms)
+
+
+def _canon_terms(terms):
     ids = {}
 
     def go(t):
@@ -205,6 +209,27 @@ class RealEngine:
                     res.append([Sym('saved-value-changed'), a, late])
         return res
 
+    def query_load(self, name, terms, k, how, clauses):
+        """take k answers of a query, load a script while it is suspended, take the rest"""
+        args = [self.term(t) for t in terms]
+        answers = []
+        q = self.yp.query(name, args)
+        loaded = False
+        ending = Sym('done')
+        try:
+            for _ in q:
+                answers.append(canon_terms(args))
+                if len(answers) == k and not loaded:
+                    self.load(clauses, overwrite=(how == 'overwrite'))
+                    loaded = True
+        except Exception as e:
+            ending = exn_name(e)
+        if not loaded:
+            self.load(clauses, overwrite=(how == 'overwrite'))
+        del q
+        gc.collect()
+        return [[Sym('q'), answers, ending, bound_count()], Sym('ok')]
+
     def evaluate_bounded(self, limit, name, terms, raise_at):
         args = [self.term(t) for t in terms]
         calls = [0]
@@ -249,13 +274,22 @@ def run_op(eng, op):
         return eng.query(op[1], op[3], op[2], how)
     if k == 'eb':
         return eng.evaluate_bounded(op[1], op[2], op[4], op[3])[0]
+    if k == 'query_load':
+        return eng.query_load(op[1], op[2], op[3], op[4], op[5])
     raise ValueError(op)
 
 
 def run_scenario(ops):
     """ops: list of tuples, see checks. Returns list of results (sexp values)."""
     eng = RealEngine()
-    return [run_op(eng, op) for op in ops]
+    out = []
+    for op in ops:
+        r = run_op(eng, op)
+        if op[0] == 'query_load':
+            out.extend(r)          # two results: the query, then the load
+        else:
+            out.append(r)
+    return out
 
 
 def scenario_model(ops, mode, fuel=4000):
@@ -280,6 +314,13 @@ def scenario_model(ops, mode, fuel=4000):
             sched = op[2]
             s = Sym('all') if sched[0] == 'all' else [Sym(sched[0]), sched[1]]
             enc.append([Sym('query'), op[1], s] + list(op[3]))
+        elif k == 'eb':
+            enc.append([Sym('eb'), op[1], op[2], Sym('none') if op[3] is None else op[3]] + list(op[4]))
+        elif k == 'query_load':
+            # a call resolves at the moment it is made: the load performed while the query is
+            # suspended does not change its answers; afterwards the load is in force
+            enc.append([Sym('query'), op[1], Sym('all')] + list(op[2]))
+            enc.append([Sym('load'), Sym(op[4]), ] + S.program_model(op[5]))
         else:
             raise ValueError(op)
     return [Sym('scenario'), Sym(mode), fuel] + enc
